@@ -185,7 +185,7 @@ def month_aligned(cells):
 
 # ------------------------------------------------------------------ taxonomy layouts (C13)
 ACC_LAYOUTS = ["regular", "semi", "semi_gap", "irregular", "erratic", "overlap1", "adjacent_days",
-               "unequal_days", "offgrid", "daily", "single_cell", "same_month_evals", "gen"]
+               "unequal_days", "offgrid", "daily", "single_cell", "same_month_evals", "near_month_end", "gen"]
 
 
 class AccGen:
@@ -266,6 +266,33 @@ class AccGen:
                 i = r.randrange(1, len(rows))
                 a, b, evs = rows[i]
                 rows[i] = (a - ONE, b, evs)
+            return rows
+        if layout == "near_month_end":
+            # monthly periods around February; evaluation dates (and sometimes a period end) on the last
+            # days of months: 28 Feb of leap and common years, 29 Feb, 30th of 31-day months, true month ends
+            y = r.choice([1996, 2000, 2004, 2020, 2024, 2028, 2023, 2021, 2100, 1900])
+            m = r.choice([1, 1, 2, 12])
+            yy, mm = (y - 1, 12) if m == 12 else (y, m)
+            n_p = r.randint(1, 3)
+            for p in range(n_p):
+                py, pm = add_m(yy, mm, p)
+                pe = month_end(py, pm)
+                if pm == 2 and r.random() < 0.5:
+                    pe = D(py, 2, 28)
+                evs = set()
+                for k in range(0, r.randint(2, 5)):
+                    ey, em = add_m(py, pm, k)
+                    last = month_end(ey, em)
+                    choices = [last, last]
+                    if em == 2:
+                        choices += [D(ey, 2, 28), D(ey, 2, 28), D(ey, 2, 27)]
+                    if last.day == 31:
+                        choices += [D(ey, em, 30)]
+                    e = r.choice(choices)
+                    if e >= pe:
+                        evs.add(e)
+                evs.add(pe)
+                rows.append((D(py, pm, 1), pe, sorted(evs)))
             return rows
         if layout == "single_cell":
             return [(mstart(start), mend(start + res - 1), [mend(start + res - 1 + r.choice([0, 1, 5]))])]
